@@ -191,7 +191,7 @@ def run_plan(case):
 
 def legs(tier):
     nmax = 6 if tier == 'quick' else 7
-    L = [Leg('omp', _case('omp'), run_omp, 640, 24000), Leg('mp', _case('mp'), run_mp, 96, 1600),
+    L = [Leg('omp', _case('omp'), run_omp, 1600, 24000), Leg('mp', _case('mp'), run_mp, 192, 1600),
          Leg('plan', None, run_plan, 0, 0, cases=lambda: _plan_cases(nmax))]
     try:
         from . import c07_coop
